@@ -225,10 +225,9 @@ def build_optimized_pattern(choices: list[ChoiceChoice], repeat: str = "") -> st
             case UnicodePropertyRule(expression=RegexExpression(pattern=pattern)):
                 unicode_props.append(pattern)
             case ChoiceLiteral(value=val, case=ChoiceCase.INSENSITIVE) if len(val) == 1:
-                char_class_parts.append(val.upper())
-                char_class_parts.append(val.lower())
+                char_class_parts.extend(_ascii_case_variants(val))
             case ChoiceLiteral(value=val, case=ChoiceCase.INSENSITIVE):
-                insensitive_parts.append(f"(?i:{re.escape(val)})")
+                insensitive_parts.append(_ascii_insensitive(val))
             case ChoiceLiteral(value=val, case=ChoiceCase.SENSITIVE) if len(val) == 1:
                 char_class_parts.append(val)
             case ChoiceLiteral(value=val, case=ChoiceCase.SENSITIVE):
@@ -255,6 +254,32 @@ def build_optimized_pattern(choices: list[ChoiceChoice], repeat: str = "") -> st
             return f"(?:{parts[0]}){repeat}"
         return parts[0]
     return "(?:" + "|".join(parts) + ")" + repeat
+
+
+def _ascii_case_variants(ch: str) -> list[str]:
+    """Both cases of an ASCII letter, any other character unchanged.
+
+    Case-insensitive literals ignore ASCII case only, as in pest. `str.upper()`
+    alone would also turn "ß" into the two characters "SS".
+    """
+    if ch.isascii() and ch.isalpha():
+        return [ch.upper(), ch.lower()]
+    return [ch]
+
+
+def _ascii_insensitive(value: str) -> str:
+    """A pattern matching `value` ignoring ASCII case.
+
+    A scoped `(?i:...)` would use full Unicode case folding under VERSION1.
+    """
+    parts: list[str] = []
+    for ch in value:
+        variants = _ascii_case_variants(ch)
+        if len(variants) == 1:
+            parts.append(re.escape(ch))
+        else:
+            parts.append("[" + "".join(variants) + "]")
+    return "".join(parts)
 
 
 def _optimize_char_class(singles: list[str], ranges: list[tuple[str, str]]) -> str:
